@@ -69,8 +69,8 @@ PROPS["C20"] = {"units": [], "engine": "kani",
     "technique": "Kani/CBMC complete finite-domain harnesses on the real crate", "design_ref": "DESIGN.md §6.8"}
 
 PROPS["C11"] = {"units": ["nav"], "kani": [], "replay": [], "title": "Code-map offsets navigate correctly", "level": "proof",
-    "level_text": "Value::get_fragment, get_array_fragment, Object::get_fragment and Entry::get_fragment are proved (with termination) to return the i-th fragment of the pre-order fragment list and the overshoot past the end; the mapped iterators over arrays and objects are proved to yield the offsets index+1+sum of the preceding sub-tree sizes given a code map of the shape C05 guarantees.",
-    "level_note": "assumed: vstd's slice iterator specs; payload types opaque. Not under contract: the key-based mapped lookups (macro-generated), Traverse, TryFromJson conversions (closures/collect) -- bounded stand-in only",
+    "level_text": "Value::get_fragment, get_array_fragment, Object::get_fragment and Entry::get_fragment are proved (with termination) to return the i-th fragment of the pre-order fragment list and the overshoot past the end; the mapped iterators over arrays and objects are proved to yield the offsets index+1+sum of the preceding sub-tree sizes given a code map of the shape C05 guarantees. Key-based mapped lookups: the four iterators generated by `mapped_entries_iter!` (MappedEntries, MappedEntriesWithIndex, MappedValues, MappedValuesWithIndex) are extracted from the macro-expanded crate (rule R13) and their `next` is proved: for the next position i of the key it yields the code-map index offset + (entries skipped: 2 + sub-tree size each), the key at +1 and the value at +2, with the skipping loop proved to terminate and to keep the state invariant; `object::Indexes::next` is proved against its view.",
+    "level_note": "assumed: vstd's slice iterator specs; payload types opaque; R13: macro-generated items are taken from `cargo +nightly rustc -- -Zunpretty=expanded` run on the current tree on every check. Not under contract: the constructors get_mapped_* (IndexMap lookup + `.map(IntoIterator::into_iter).unwrap_or_default()`), Traverse, TryFromJson conversions (closures/collect) -- bounded stand-in only",
     "design_ref": "DESIGN.md §6.5"}
 PROPS["C20"]["units"] = ["nav"]
 
